@@ -513,17 +513,12 @@ func r11Runners(c *an.Ctx) {
 		// R11.3 no early exit from range loops over the set
 		nLoops := 0
 		var exits []string
-		ast.Inspect(f.Decl.Body, func(n ast.Node) bool {
-			rs, ok := n.(*ast.RangeStmt)
-			if !ok {
-				return true
-			}
+		for _, l := range setLoops(c, f) {
 			nLoops++
-			for _, e := range loopExits(rs.Body) {
+			for _, e := range loopExits(l.body) {
 				exits = append(exits, fmt.Sprintf("%s at %s", an.Src(c.Fset, e), c.Position(e.Pos())))
 			}
-			return true
-		})
+		}
 		if nLoops == 0 {
 			c.Failf("R11.3", "eval."+row.fn+"#loop", f.Decl.Pos(), "no range loop over the set found")
 		} else if len(exits) > 0 {
@@ -534,6 +529,46 @@ func r11Runners(c *an.Ctx) {
 		// R11.4 interface/method pairing
 		var asserted []string
 		var methods []string
+		// a runner written as eachOf(set, Preparer.Prepare): a generic helper asserts its type parameter and calls
+		// the function it is given; the method expression names both the interface and the method
+		assertsTypeParam, callsFuncParam := false, false
+		var methodExprs [][2]string
+		c.InspectAll(f, func(hf *an.Func, n ast.Node) bool {
+			hinfo := hf.Pkg.TypesInfo
+			switch x := n.(type) {
+			case *ast.TypeAssertExpr:
+				if x.Type != nil && hf != f {
+					if tv, ok := hinfo.Types[x.Type]; ok {
+						if _, isTP := tv.Type.(*types.TypeParam); isTP {
+							assertsTypeParam = true
+						}
+					}
+				}
+			case *ast.CallExpr:
+				if hf != f {
+					if v, ok := an.ObjOf(hinfo, an.Unparen(x.Fun)).(*types.Var); ok && paramIndex(hf, x.Fun) >= 0 {
+						if _, isSig := v.Type().Underlying().(*types.Signature); isSig {
+							callsFuncParam = true
+						}
+					}
+				}
+			case *ast.SelectorExpr:
+				if hf == f {
+					if sel, ok := hinfo.Selections[x]; ok && sel.Kind() == types.MethodExpr {
+						if recv := an.NamedTypeName(sel.Recv()); strings.HasPrefix(recv, an.P("eval")+".") {
+							methodExprs = append(methodExprs, [2]string{recv, x.Sel.Name})
+						}
+					}
+				}
+			}
+			return true
+		})
+		if assertsTypeParam && callsFuncParam {
+			for _, me := range methodExprs {
+				asserted = append(asserted, me[0])
+				methods = append(methods, strings.TrimPrefix(me[0], an.P("eval")+".")+"."+me[1])
+			}
+		}
 		ast.Inspect(f.Decl.Body, func(n ast.Node) bool {
 			switch x := n.(type) {
 			case *ast.TypeAssertExpr:
@@ -648,14 +683,31 @@ func r11Record(c *an.Ctx) {
 func r11Roots(c *an.Ctx) {
 	f := c.MustFunc("R11.6", "eval", "DSLContext.Roots")
 	if f != nil {
-		info := f.Pkg.TypesInfo
+		_ = f.Pkg.TypesInfo
 		n := 0
-		for _, call := range an.AllCallsIn(f.Decl.Body) {
-			if an.CalleeName(info, call) != an.P("eval")+".sortDependencies" {
-				continue
+		var depCalls []*ast.CallExpr
+		var depFuncs []*an.Func
+		for _, hf := range c.WithNewHelpers(f) { // Roots and the helpers extracted from it (flattenDependencies …)
+			for _, call := range an.AllCallsIn(hf.Decl.Body) {
+				if an.CalleeName(hf.Pkg.TypesInfo, call) == an.P("eval")+".sortDependencies" {
+					depCalls = append(depCalls, call)
+					depFuncs = append(depFuncs, hf)
+				}
 			}
+		}
+		for ci, call := range depCalls {
+			f, info := depFuncs[ci], depFuncs[ci].Pkg.TypesInfo
 			for _, a := range call.Args {
-				fl, ok := an.Unparen(a).(*ast.FuncLit)
+				a = an.Unparen(an.ResolveLocalOnce(info, f.Decl.Body, a)) // a closure held in a local variable
+				if se, isSel := a.(*ast.SelectorExpr); isSel {
+					// a method expression of the Root interface (Root.DependsOn): its argument is the root it is asked about
+					if sel, ok := info.Selections[se]; ok && sel.Kind() == types.MethodExpr {
+						n++
+						c.Okf("R11.6", fmt.Sprintf("%s#depfunc-%d", f.Name, n), "the dependency callback is the method %s of its argument", types.ExprString(se))
+					}
+					continue
+				}
+				fl, ok := a.(*ast.FuncLit)
 				if !ok {
 					continue
 				}
@@ -686,7 +738,7 @@ func r11Roots(c *an.Ctx) {
 		}
 		c.Floor("R11.6", n, 2, "dependency callbacks passed to sortDependencies")
 	}
-	g := c.MustFunc("R11.7", "eval", "sortDependenciesR")
+	g := recursiveSorter(c, "R11.7")
 	if g != nil {
 		info := g.Pkg.TypesInfo
 		cg := an.NewCFG(info, g.Decl.Body)
@@ -806,27 +858,43 @@ func r11RootsLoops(c *an.Ctx) {
 	}
 	_ = info
 	// R11.9
+	// the loop that returns the dependency-cycle error: in Roots itself, or in a helper extracted from it
 	var cycleLoop *ast.RangeStmt
-	ast.Inspect(f.Decl.Body, func(nd ast.Node) bool {
-		rs, ok := nd.(*ast.RangeStmt)
-		if !ok || cycleLoop != nil {
-			return true
-		}
-		hasErr := false
-		ast.Inspect(rs.Body, func(m ast.Node) bool {
-			if ret, ok := m.(*ast.ReturnStmt); ok && len(ret.Results) == 2 {
-				if id, ok := ret.Results[0].(*ast.Ident); ok && id.Name == "nil" {
-					hasErr = true
+	for _, lf := range c.WithNewHelpers(f) {
+		linfo := lf.Pkg.TypesInfo
+		ast.Inspect(lf.Decl.Body, func(nd ast.Node) bool {
+			rs, ok := nd.(*ast.RangeStmt)
+			if !ok || cycleLoop != nil {
+				return true
+			}
+			hasErr := false
+			ast.Inspect(rs.Body, func(m ast.Node) bool {
+				if ret, ok := m.(*ast.ReturnStmt); ok {
+					for _, r := range ret.Results {
+						if call, ok := an.Unparen(r).(*ast.CallExpr); ok {
+							if cn := an.CalleeName(linfo, call); cn == "fmt.Errorf" || cn == "errors.New" {
+								hasErr = true
+							}
+						}
+					}
 				}
+				return true
+			})
+			if hasErr {
+				cycleLoop = rs
+				if lf != f {
+					f = lf
+					info = linfo
+					parent = an.ParentMap(lf.Decl.Body)
+				}
+				return false
 			}
 			return true
 		})
-		if hasErr {
-			cycleLoop = rs
-			return false
+		if cycleLoop != nil {
+			break
 		}
-		return true
-	})
+	}
 	if cycleLoop == nil {
 		c.Add(an.Obligation{Rule: "R11.9", Construct: f.Name + "#cycle-check", Status: an.LOST, Detail: "no loop returning the dependency-cycle error found"})
 		return
@@ -941,7 +1009,7 @@ func r11RootsLoops(c *an.Ctx) {
 // the increment comes before any statement that can leave the iteration, or elements are executed twice / the loop never
 // ends when a set holds a nil entry.
 func r11Progress(c *an.Ctx) {
-	if f := c.MustFunc("R11.10", "eval", "sortDependenciesR"); f != nil {
+	if f := recursiveSorter(c, "R11.10"); f != nil {
 		info := f.Pkg.TypesInfo
 		n := 0
 		g := an.NewCFG(info, f.Decl.Body)
@@ -994,22 +1062,14 @@ func r11Progress(c *an.Ctx) {
 	if f := c.MustFunc("R11.11", "eval", "runSet"); f != nil {
 		info := f.Pkg.TypesInfo
 		n := 0
-		ast.Inspect(f.Decl.Body, func(nd ast.Node) bool {
-			rs, ok := nd.(*ast.RangeStmt)
-			if !ok {
-				return true
+		for _, l := range setLoops(c, f) {
+			if l.counter == nil || l.f != f {
+				continue
 			}
-			sl, ok := an.Unparen(rs.X).(*ast.SliceExpr)
-			if !ok || sl.Low == nil {
-				return true
-			}
-			counter := an.ObjOf(info, sl.Low)
-			if counter == nil {
-				return true
-			}
+			counter := l.counter
 			n++
 			first := false
-			for _, st := range rs.Body.List {
+			for _, st := range l.body.List {
 				if inc, ok := st.(*ast.IncDecStmt); ok && inc.Tok == token.INC && an.ObjOf(info, inc.X) == counter {
 					first = true
 					break
@@ -1029,9 +1089,8 @@ func r11Progress(c *an.Ctx) {
 					break
 				}
 			}
-			c.Check(first, "R11.11", f.Name+"#progress("+counter.Name()+")", rs.Pos(), "every element consumed by the inner loop is counted before anything can skip it", "the loop ranges over the part of the set after "+counter.Name()+" but does not increment "+counter.Name()+" before the first statement that can leave the iteration: an element that is skipped before the increment is consumed without being counted, so later elements run twice or the outer loop never ends")
-			return true
-		})
+			c.Check(first, "R11.11", f.Name+"#progress("+counter.Name()+")", l.node.Pos(), "every element consumed by the inner loop is counted before anything can skip it", "the loop goes over the part of the set after "+counter.Name()+" but does not increment "+counter.Name()+" before the first statement that can leave the iteration: an element that is skipped before the increment is consumed without being counted, so later elements run twice or the outer loop never ends")
+		}
 		c.Floor("R11.11", n, 1, "resumable loops in runSet")
 	}
 }
@@ -1178,4 +1237,98 @@ func r11RootIdentity(c *an.Ctx, rule string) {
 		return true
 	})
 	c.Check(found, rule, c.RefName(f)+"#duplicate", f.Decl.Pos(), "a root is refused when another root of the same EvalName is registered", "Register no longer compares the EvalName of the new root with the names of the registered ones: two roots with one name are both accepted while every phase looks roots up by name")
+}
+
+// setLoop is a loop over (a part of) an expression set: `for _, def := range set[from:]` or the index form
+// `for i := from; i < len(set); i++ { def := set[i] … }`, in the runner itself or in a helper extracted from it.
+type setLoop struct {
+	f       *an.Func
+	node    ast.Node
+	body    *ast.BlockStmt
+	counter types.Object // the variable the loop resumes from (set[counter:] / i := counter), nil if it starts at 0
+}
+
+func setLoops(c *an.Ctx, f *an.Func) []setLoop {
+	var out []setLoop
+	c.InspectAll(f, func(hf *an.Func, n ast.Node) bool {
+		info := hf.Pkg.TypesInfo
+		switch x := n.(type) {
+		case *ast.RangeStmt:
+			l := setLoop{f: hf, node: x, body: x.Body}
+			if sl, ok := an.Unparen(x.X).(*ast.SliceExpr); ok && sl.Low != nil {
+				l.counter = an.ObjOf(info, sl.Low)
+			}
+			out = append(out, l)
+		case *ast.ForStmt:
+			// for i := from; i < hi; i++ with an element read set[i] in the body
+			inc, ok := x.Post.(*ast.IncDecStmt)
+			if !ok || inc.Tok != token.INC || x.Init == nil {
+				return true
+			}
+			iv := an.ObjOf(info, inc.X)
+			if iv == nil {
+				return true
+			}
+			reads := false
+			ast.Inspect(x.Body, func(m ast.Node) bool {
+				if ix, ok := m.(*ast.IndexExpr); ok && an.ObjOf(info, an.Unparen(ix.Index)) == iv {
+					if _, isSlice := info.TypeOf(ix.X).Underlying().(*types.Slice); isSlice {
+						reads = true
+					}
+				}
+				return true
+			})
+			if !reads {
+				return true
+			}
+			l := setLoop{f: hf, node: x, body: x.Body}
+			if as, ok := x.Init.(*ast.AssignStmt); ok {
+				for k, lhs := range as.Lhs {
+					if an.ObjOf(info, lhs) == iv && k < len(as.Rhs) {
+						if id, ok := an.Unparen(as.Rhs[k]).(*ast.Ident); ok {
+							if v, isVar := an.ObjOf(info, id).(*types.Var); isVar {
+								l.counter = v
+							}
+						}
+					}
+				}
+			}
+			out = append(out, l)
+		}
+		return true
+	})
+	return out
+}
+
+// recursiveSorter returns the depth-first step of the dependency sort: sortDependenciesR, or - when it was renamed
+// or turned into a method - the one self-recursive function of package eval that sortDependencies calls.
+func recursiveSorter(c *an.Ctx, rule string) *an.Func {
+	if f := c.Func("eval", "sortDependenciesR"); f != nil {
+		return f
+	}
+	sd := c.Func("eval", "sortDependencies")
+	var cands []*an.Func
+	if sd != nil {
+		for _, call := range an.AllCallsIn(sd.Decl.Body) {
+			h := c.FuncOfObj(an.Callee(sd.Pkg.TypesInfo, call))
+			if h == nil {
+				continue
+			}
+			self := false
+			for _, c2 := range an.AllCallsIn(h.Decl.Body) {
+				if an.Callee(h.Pkg.TypesInfo, c2) == types.Object(h.Obj) {
+					self = true
+				}
+			}
+			if self {
+				cands = append(cands, h)
+			}
+		}
+	}
+	if len(cands) == 1 {
+		return cands[0]
+	}
+	c.Add(an.Obligation{Rule: rule, Construct: "eval.sortDependenciesR", Status: an.LOST,
+		Detail: "anchor function not found in the module (no unique successor)"})
+	return nil
 }
